@@ -109,6 +109,8 @@ type Machine struct {
 	normBuf    []value
 	lastRand   value
 	absDone    map[*Term]bool
+	tokens     map[string]value
+	errCause   map[*value]iface
 
 	// stats (accumulated across paths)
 	instrs int64
@@ -138,6 +140,8 @@ func (m *Machine) resetPath(prefix []int) {
 	m.curFrame = nil
 	m.normBuf = nil
 	m.absDone = nil
+	m.tokens = nil
+	m.errCause = nil
 }
 
 // addPC asserts t on the current path.
